@@ -70,3 +70,67 @@ class _:
     def result(self):
         return False if self.vul is Vul.NONE else (
             True if self.vul is Vul.BOTH else G.side_vulnerable(G.side(self.declarer), self.vul))
+
+
+# ---- text form (C15: a contract's text parses back to the same contract) ------------------------
+import spec.jsonlog as J
+from pyvc.speclib import conj
+from pyvc.dsl import Shape
+
+
+@contract('bridge_env.contract.Contract.__str__', props=P + ['C12', 'C18'])
+class _:
+    params = dict(self=ContractS)
+
+    def requires_valid(self):
+        return valid_contract(self)
+
+    def result(self):
+        return J.contract_text(self)
+
+
+def _ctext(ctx, it):
+    c = ContractS.fresh(ctx, 'c')
+    ctx.assume(it.truth(it.run_body(valid_contract, {'c': c})))
+    ctx.assume(it.truth(it.run_body(_declarer_consistent, {'c': c})))
+    return dict(cls=Contract, str_contract=it.run_body(J.contract_text, {'contract': c}),
+                vul=c.fields['vul'], declarer=c.fields['declarer'], ghost_c=c)
+
+
+def _declarer_consistent(c):
+    # the parser asserts that a passed-out contract has no declarer (as the writers produce)
+    return implies(passed_out(c), c.declarer is None)
+
+
+def _ctext_sample(rng):
+    c = ContractS.sample(rng)
+    from pyvc import native
+    c = native.lower(c)
+    if c.final_bid in (Bid.X, Bid.XX):
+        c = Contract(None, vul=c.vul)
+    if c.is_passed_out():
+        c = Contract(c.final_bid, c.x, c.xx, c.vul, None)
+    return dict(cls=Contract, str_contract=J.contract_text(c), vul=c.vul, declarer=c.declarer,
+                ghost_c=c)
+
+
+def status_of(c):
+    return ite(c.xx, 2, ite(c.x, 1, 0))
+
+
+@contract('bridge_env.contract.Contract.str_to_contract', props=P + ['C12'])
+class _:
+    fresh_params = _ctext
+    sample_params = _ctext_sample
+    returns = ContractS
+    note = ('domain: the text of every valid contract (35 bids x undoubled/doubled/redoubled, and '
+            'passed out as None or Pass) with every vulnerability and declarer')
+
+    # same level and denomination, vulnerability, declarer, passed-out-ness and effective
+    # doubling status
+    def ensures_same_contract(result, ghost_c):
+        return conj(passed_out(result) == passed_out(ghost_c),
+                    True if passed_out(ghost_c) else conj(
+                        result.final_bid is ghost_c.final_bid,
+                        status_of(result) == status_of(ghost_c)),
+                    result.vul is ghost_c.vul, result.declarer is ghost_c.declarer)
